@@ -159,3 +159,104 @@ def return_blocks_maybe_ok(ctx, fn):
             if "t" in t:
                 out.append((t["t"], "call"))
     return out
+
+
+class LocalFlow:
+    """Flow-insensitive 'derives from' relation between the locals of one body: local L depends on every
+    local mentioned in any assignment to L (or in the arguments of a call whose destination is L); a local
+    whose mutable borrow is passed to a call depends on that call's other arguments (push/insert/extend/
+    bitor_assign ...). Used where a rule needs 'the value handed to X comes from Y' without fixing the
+    shape of the expression in between (iterator chain vs loop, temporaries, helper results)."""
+
+    def __init__(self, fn):
+        self.fn = fn
+        self.deps = {}
+        self.borrow_of = {}     # temp local -> local it mutably borrows
+        self.src_calls = {}     # local -> set of callee qnames whose result flows directly into it
+        for b in fn.blocks:
+            for s in b["s"]:
+                if s["k"] != "assign":
+                    continue
+                l = s["p"]["l"]
+                ls = self._locals_rv(s["r"])
+                self.deps.setdefault(l, set()).update(ls)
+                r = s["r"]
+                if r["k"] in ("ref", "rawptr") and (r.get("bk") == "mut" or r.get("mut")):
+                    self.borrow_of[l] = r["p"]["l"]
+                elif r["k"] == "ref":
+                    self.borrow_of.setdefault(l, r["p"]["l"])
+        for b in fn.blocks:
+            t = b["t"]
+            if t["k"] != "call":
+                continue
+            args = [self._local_op(a) for a in t["args"]]
+            args = [a for a in args if a is not None]
+            d = t["dest"]["l"]
+            self.deps.setdefault(d, set()).update(args)
+            if "decl" in t["f"]:
+                decl, res, rk = fn.callee(t)
+                self.src_calls.setdefault(d, set()).add(decl.qname)
+                if res is not None:
+                    self.src_calls[d].add(res.qname)
+            # mutation through a mutable borrow passed as (first) argument
+            for a in args[:1]:
+                tgt = self._root_borrow(a)
+                if tgt is not None and tgt != a:
+                    self.deps.setdefault(tgt, set()).update(x for x in args if x != a)
+                    if "decl" in t["f"]:
+                        self.src_calls.setdefault(tgt, set())
+
+    def _root_borrow(self, l, depth=0):
+        seen = set()
+        while l in self.borrow_of and l not in seen and depth < 10:
+            seen.add(l)
+            l = self.borrow_of[l]
+            depth += 1
+        # follow plain moves of a reference
+        return l
+
+    @staticmethod
+    def _local_op(o):
+        p = o.get("c") or o.get("m")
+        return p["l"] if p is not None else None
+
+    def _locals_rv(self, r):
+        out = set()
+        for k in ("o", "a", "b"):
+            if k in r and isinstance(r[k], dict):
+                l = self._local_op(r[k])
+                if l is not None:
+                    out.add(l)
+        if "p" in r:
+            out.add(r["p"]["l"])
+        for o in r.get("ops", []):
+            l = self._local_op(o)
+            if l is not None:
+                out.add(l)
+        return out
+
+    def closure(self, l):
+        """all locals l (transitively) derives from, including itself"""
+        seen = {l}
+        st = [l]
+        while st:
+            x = st.pop()
+            for y in self.deps.get(x, ()):
+                if y not in seen:
+                    seen.add(y)
+                    st.append(y)
+            y = self.borrow_of.get(x)
+            if y is not None and y not in seen:
+                seen.add(y)
+                st.append(y)
+        return seen
+
+    def derives_from_call(self, l, qname_pred):
+        """some local in the dependency closure of l is the destination of a call satisfying qname_pred"""
+        for x in self.closure(l):
+            if any(qname_pred(q) for q in self.src_calls.get(x, ())):
+                return True
+        return False
+
+    def derives_from_local(self, l, src):
+        return src in self.closure(l)
